@@ -17,6 +17,13 @@ ENGINES = ['global_cache', 'thread_local_cache', 'async_cache']
 ENGINES_SCORES = ENGINES + ['scores']
 WRAPPERS = ['wrappers_global', 'wrappers_thread', 'wrappers_async']
 
+def _reg(prop):
+    def run(tier):
+        from extract import check
+        return check.registration_check(prop)(tier)
+    return run
+
+
 def _lock(kinds, prop):
     def run(tier):
         from extract import check
@@ -50,8 +57,11 @@ PROPERTIES = {
                 assumptions=['predicates are pure functions of (key, value)']),
     'C11': dict(units=ENGINES + WRAPPERS, explanation='wrapper contracts on the expansions of invalidate_on fixtures: a stale hit is never returned, the body reruns and the fresh result replaces the entry (last store wins in all three engines); a valid hit is served without the body',
                 assumptions=['the check is a pure function of (key, value) during one call']),
-    'C13': dict(units=['wrappers_global', 'wrappers_async'] + ENGINES,
+    'C12': dict(units=['registry', 'wrappers_global', 'wrappers_async'], extra=[_reg('C12')],
+                explanation='registry contracts with an explicit effect log (R8): register puts the name under each tag / event / dependency in its own table; invalidate_by_{tag,event,dependency} invoke exactly the clear callbacks of the names registered under that key in that table and return their number; invalidate_cache invokes exactly that name; the clear callbacks emitted by the macros empty store and queue; registrations on the real expansions use the right name and slots (structural)',
+                assumptions=['R8: what a dyn callback does is verified separately on the macro expansion (clear callbacks of the fixture corpus)', 'the "used at least once" precondition: registration happens in the Once/OnceCell block before the first lookup (structure of the expansion)']),
+    'C13': dict(units=['registry', 'wrappers_global', 'wrappers_async'] + ENGINES, extra=[_reg('C13')],
                 explanation='conditional-invalidation callbacks as emitted by the real macros (one verified representative per emitted shape): exactly the stored keys satisfying the predicate leave store and queue, survivors untouched, queue order preserved, representation invariant re-established -- so that by the engine contracts later limits / evictions / totals are those of a cache in which the keys were never stored',
-                assumptions=['R8: the user predicate is a pure function of the key', 'registry dispatch (which callback is invoked for which name) is covered by unit registry (C12)']),
+                assumptions=['R8: the user predicate is a pure function of the key; the closure invalidate_all_with builds around it is abstracted to "the predicate specialised to that cache name"']),
     'C15': dict(units=ENGINES, explanation='exactly one counter is bumped by exactly one per lookup'),
 }
